@@ -45,7 +45,7 @@ theorem resOf_with (sched : Sched) (r : Res) (st st' : SSt) : ({ resOf sched r s
 
 /-- a model session over the recording writer, as the translated struct -/
 def toGenS (sched : Sched) (s : Session.Session) (st : SSt) (lid : Gen.EventID) : Gen.Session SSt :=
-  { Res := resOf sched s.res st, Req := (), LastEventID := lid, didUpgrade := s.didUpgrade }
+  { Res := resOf sched s.res st, Req := none, LastEventID := lid, didUpgrade := s.didUpgrade }
 
 theorem recW_obeys (sched : Sched) (lvl : Nat) : (recW sched lvl).Obeys := by
   intro st p
